@@ -25,8 +25,8 @@ if self.host:
         uri += '§' % self.host
     else:
         uri += self.host
-    if self.port:
-        uri += '§' % self.port
+if self.port:
+    uri += '§' % self.port
 uri += '§'
 db = self.db
 if db.startswith('§'):
